@@ -1000,6 +1000,14 @@ impl Server {
                     }
                 }
                 
+                // Between MULTI and EXEC everything but the transaction-control commands is only queued:
+                // this test comes before the MONITOR / pub/sub / AUTH / REPLCONF arms, which would execute at once
+                if in_transaction && transactions::should_queue_command(&command) {
+                    return self.connections.with_connection(conn_id, |conn| {
+                        transactions::queue_command(conn, parts.to_vec())
+                    }).unwrap_or_else(|| Ok(RespFrame::error("ERR connection not found")));
+                }
+                
                 // Special handling for MONITOR command
                 if command.as_str() == "MONITOR" {
                     if parts.len() != 1 {
@@ -1056,13 +1064,6 @@ impl Server {
                         }).unwrap_or_else(|| Ok(RespFrame::error("ERR connection not found")));
                     }
                     _ => {}
-                }
-                
-                // Check if we should queue the command
-                if in_transaction && transactions::should_queue_command(&command) {
-                    return self.connections.with_connection(conn_id, |conn| {
-                        transactions::queue_command(conn, parts.to_vec())
-                    }).unwrap_or_else(|| Ok(RespFrame::error("ERR connection not found")));
                 }
                 
                 // Process normal command
@@ -1300,6 +1301,7 @@ impl Server {
             #[cfg(feature = "verif")]
             "VERIF" => self.handle_verif(parts, db),
             "PING" => self.handle_ping(parts),
+            "PUBLISH" => self.handle_publish(parts), // reached from EXEC (queued inside MULTI)
             "ECHO" => self.handle_echo(parts),
             "SET" => self.handle_set(parts, db),
             "GET" => self.handle_get(parts, db),
